@@ -217,7 +217,8 @@ Inductive op :=
 | EmptyTrash
 | RegRemove (l : list N)
 | Trash1 (d : N)
-| Ingest (d1 d2 r k : N).
+| Ingest (d1 d2 r k : N)
+| Xfer (d r k : N).
 
 Definition store (s : st) (d r k : N) (newrow : bool) : st :=
   mk (colls s) (chains s) (if newrow then (d, (r, k)) :: ds s else ds s) (tags s) (calibs s)
@@ -246,6 +247,18 @@ Definition imp_ok (s : st) (d : N) (a : art) : bool :=
   end.
 Definition add_row (s : st) (d : N) (a : art) (rows : list (N * art)) : list (N * art) :=
   if has_ds s d then rows else (d, a) :: rows.
+
+(* Butler.transfer_from(source, [ref], transfer="copy") of ONE dataset (id d, run r, key k) from a second repository: one
+   transaction.  The run is registered when missing (only when the call succeeds); the registry half is _importDatasets as for put /
+   ingest; the datastore half (FileDatastore.transfer_from) SKIPS a dataset the records table already has (also a pending one, also
+   one whose artifact is missing); otherwise the artifact is copied to the same path, the records row is written with
+   DatabaseInsertMode.REPLACE and the location row with bridge.ensure -- so it also works for an id the registry already knows. *)
+Definition xfer (s : st) (d r k : N) : st * outcome :=
+  if negb (imp_ok s d (r, k)) then (s, Err Conflict) else
+  let cs := match ctype s r with None => (r, Run) :: colls s | Some _ => colls s end in
+  let rows := add_row s d (r, k) (ds s) in
+  if has_rec s d then (mk cs (chains s) rows (tags s) (calibs s) (loc s) (trash s) (recs s) (files s), Ok)
+  else (mk cs (chains s) rows (tags s) (calibs s) (addN d (loc s)) (trash s) ((d, (r, k)) :: recs s) (addA (r, k) (files s)), Ok).
 
 (* associate: one row per dataset; a different dataset with the same key already in the collection is a conflict *)
 Fixpoint tag_all (s : st) (c : N) (l : list N) (acc : list (N * N)) : option (list (N * N)) :=
@@ -378,6 +391,11 @@ Definition step (s : st) (o : op) : st * outcome :=
       else if has_rec s d1 || memN d1 (loc s) || (has_rec s d2 || memN d2 (loc s)) then (s, Err Conflict)
       else (mk (colls s) (chains s) (add_row s d1 (r, k) (add_row s d2 (r, sib k) (ds s))) (tags s) (calibs s)
                (d1 :: d2 :: loc s) (trash s) ((d1, (r, k)) :: (d2, (r, k)) :: recs s) (addA (r, k) (files s)), Ok)
+    | Some _ => (s, Err CollType)
+    end
+  | Xfer d r k =>
+    match ctype s r with
+    | None | Some Run => xfer s d r k
     | Some _ => (s, Err CollType)
     end
   end.
